@@ -98,3 +98,17 @@ SPECS["C12"] = {
     "not_covered": ["decode_frame / encode_frame / pad_channels / PipelineTranscoder.__next__ at the level of numpy index arithmetic: bounded stand-in only"],
     "assumptions": ["default argument target_size of get_num_frames_possible equals the module constant"],
 }
+
+
+
+
+SPECS["C11"] = {
+    "level": "proof",
+    "level_text": "the read/seek/tell contracts of every view class are proved with NO precondition on the cursor of the shared substream and with a frame that lets a view write only its own position/true_size and cursors below it; a view's results are therefore a function of its own fields and the immutable content, so operations on other views cannot change them (3-line isolation lemma on paper). A mechanical scan confirms that no view contract mentions the substream cursor in a precondition. Bounded stand-in: every interleaving of short operation sequences on real views sharing one handle equals the isolated runs",
+    "level_note": "trusted: pyvc engine, z3; ROF contract of base io objects; construct's Lazy saves/restores the cursor (assumed); isolation lemma is on paper",
+    "contracts": _SECTOR_READ + _view_keys(["read", "seek", "tell"]),
+    "bounded": [("contracts.util_stream", "bounded:shared_handle_interleavings")],
+    "post_scan": "no_cursor_precondition",
+    "trusted_base": ["pyvc VC generator and its built-in models", "z3 5.1.0 / cvc5 1.0.3"],
+    "assumptions": ["isolation lemma (paper): results are a function of own fields and immutable content; own fields are written only by own methods (proved frame)"],
+}
